@@ -139,6 +139,54 @@ fn huge(curve: Curve, n: usize, col: &mut Collector) -> Result<(), Failure> {
     p.map_err(|e| Failure::new("C01:huge", format!("{} gates on {}: {}", n, curve.name(), e), json!({"gates": n, "curve": curve.name()})))
 }
 
+
+/// statements far beyond 2^16 commitments / constraints (zero-valued filler commitments are
+/// cheap): kind 0 = 65 540 commitments, kind 1 = 70 000 constraints
+fn extreme(curve: Curve, kind: u8, col: &mut Collector) -> Result<(), Failure> {
+    use crate::program::{Op, Program, Sc, Var};
+    use crate::scalars::ScalarSpec;
+    let mut ops = vec![];
+    if kind == 0 {
+        for _ in 0..65_536 {
+            ops.push(Op::Commit { v: ScalarSpec::Zero, blind: ScalarSpec::Zero });
+        }
+        for i in 0..4u64 {
+            ops.push(Op::Commit { v: ScalarSpec::Rand(i), blind: ScalarSpec::Rand(50 + i) });
+        }
+        for i in 0..3u64 {
+            ops.push(Op::AllocMul { l: Sc::C(ScalarSpec::Rand(7 + i)), r: Sc::C(ScalarSpec::Small(2 + i)) });
+        }
+        for j in 0..4usize {
+            ops.push(Op::Constrain { lc: vec![(Var::Com(65_536 + j), Sc::C(ScalarSpec::Rand(j as u64))), (Var::Com(j), Sc::C(ScalarSpec::One)), (Var::L(j % 3), Sc::C(ScalarSpec::Half))], err: None, base: None });
+        }
+    } else {
+        ops.push(Op::Commit { v: ScalarSpec::Rand(1), blind: ScalarSpec::Rand(2) });
+        ops.push(Op::AllocMul { l: Sc::C(ScalarSpec::Rand(3)), r: Sc::C(ScalarSpec::Rand(4)) });
+        for q in 0..70_000u64 {
+            let lc = match q % 3 {
+                0 => vec![(Var::Com(0), Sc::C(ScalarSpec::Small(1 + q % 9)))],
+                1 => vec![(Var::L(0), Sc::C(ScalarSpec::Small(1 + q % 5))), (Var::O(0), Sc::C(ScalarSpec::MinusOne))],
+                _ => vec![(Var::One, Sc::C(ScalarSpec::Small(q % 4)))],
+            };
+            ops.push(Op::Constrain { lc, err: None, base: None });
+        }
+    }
+    let prog = Program { curve, tlabel: 1, pre: vec![], ops, owned: false, cap_p: Cap::Exact, cap_v: Cap::Exact, party_cap: 1, seed: 3, pc: 0 };
+    let r = with_curve!(curve, G => {
+        let p = run_prover::<G>(&prog, &ProveOpts::default());
+        match p.proof.as_ref() {
+            None => Err(format!("prove failed: {:?} {:?}", p.err, p.panic)),
+            Some(pf) => {
+                let v = run_verifier::<G>(&prog, &p.commitments, pf, &VerifyOpts::default());
+                if v.accepted() { Ok(()) } else { Err(format!("verify = {}", v.verdict())) }
+            }
+        }
+    });
+    col.class(if kind == 0 { "more-than-2^16-commitments" } else { "more-than-2^16-constraints" });
+    col.nontrivial(crate::runner::fp_of(&(curve, "extreme", kind)));
+    r.map_err(|e| Failure::new("C01:extreme", format!("{} on {}: {}", if kind == 0 { "65 540 commitments" } else { "70 000 constraints" }, curve.name(), e), json!({"kind": kind, "curve": curve.name()})))
+}
+
 fn dispatch(sub: &str, bytes: &[u8], col: &mut Collector) -> Result<(), Failure> {
     let cname = sub.split('/').nth(1).unwrap_or("secq256k1");
     let curve = Curve::from_name(cname).unwrap_or(Curve::Secq);
@@ -147,6 +195,9 @@ fn dispatch(sub: &str, bytes: &[u8], col: &mut Collector) -> Result<(), Failure>
 }
 
 pub fn replay(sub: &str, bytes: &[u8], col: &mut Collector) -> Result<(), Failure> {
+    if sub == "c01/extreme" && bytes.len() == 2 {
+        return extreme(Curve::ALL[bytes[0] as usize % 3], bytes[1], col);
+    }
     if sub == "c01/huge" && bytes.len() == 3 {
         return huge(Curve::ALL[bytes[0] as usize % 3], (bytes[1] as usize) << 8 | bytes[2] as usize, col);
     }
@@ -186,6 +237,13 @@ pub fn run(tier: &str, seed: u64) -> i32 {
             }
         }
         let o = crate::runner::enumerate("c01/huge", &items, &|(c, n)| vec![c.index() as u8, (*n >> 8) as u8, *n as u8], &|(c, n), col| huge(*c, *n, col));
+        rep.outcome.merge(o);
+        rep.outcome.exhaustive = false;
+    }
+    if rep.outcome.found.is_empty() {
+        let curves: Vec<Curve> = if tier == "thorough" { Curve::ALL.to_vec() } else { vec![Curve::ALL[(seed % 3) as usize]] };
+        let items: Vec<(Curve, u8)> = curves.iter().flat_map(|c| [(*c, 0u8), (*c, 1u8)]).collect();
+        let o = crate::runner::enumerate("c01/extreme", &items, &|(c, k)| vec![c.index() as u8, *k], &|(c, k), col| extreme(*c, *k, col));
         rep.outcome.merge(o);
         rep.outcome.exhaustive = false;
     }
